@@ -31,7 +31,7 @@ REQUIRE = {
                  "value alongside gradient/Hessian == stand-alone value": 10, "gradient independent of batch size": 8,
                  "Hessian-vector product == H@p": 1, "transformed coordinates: gradient": 3, "transformed coordinates: Hessian": 1,
                  "CombineFCN: value/gradient alongside Hessian == stand-alone": 2, "CombineFCN: Hessian == d grad/dx (directional FD)": 1,
-                 "Hessian after the free set changed and was restored": 3},
+                 "Hessian after the free set changed and was restored": {"quick": 0, "thorough": 3}},
     "cover": {"model": ["default", "extended", "cfit", "cfit_cached", "cfit_extended", "cached_int", "cached_amp", "simple", "simple_cfit"],
               "hessian_model": ["default", "extended", "cfit", "cfit_cached", "cfit_extended", "cached_int", "cached_amp", "simple", "simple_cfit"]},
     "min_nontrivial": {"quick": 8, "thorough": 200},
